@@ -14,9 +14,15 @@ from engines import C11_real as R
 
 
 def _close(a, b):
+    if a is None or b is None:          # missing value: only equal to a missing value
+        return a is None and b is None
     if isinstance(a, str) or isinstance(b, str):
         return a == b
     return abs(float(a) - float(b)) <= 1e-9 * max(1.0, abs(float(a)), abs(float(b)))
+
+
+import random as _random
+_TAGS = _random.Random(20240611).sample(range(1, 2_000_000), 100_000)     # fixed, pairwise distinct
 
 
 def retag(ws, start=1):
@@ -29,8 +35,11 @@ def retag(ws, start=1):
         for i in range(no):
             for j in range(nc):
                 for t in range(nt):
-                    m[i, j, t] = nxt
-                    where[nxt] = (di, i, j, t)
+                    # scattered, not consecutive: with tags in arithmetic progression the mean of
+                    # {t0, t2} equals the mean of {t0, t1, t2} and a wrong bin would go unnoticed
+                    tag = _TAGS[nxt] if nxt < len(_TAGS) else 2_000_000 + 31 * nxt * nxt
+                    m[i, j, t] = tag
+                    where[tag] = (di, i, j, t)
                     nxt += 1
         d.measurements = m if d.measurements.ndim == 3 else m[:, :, 0]
     return where
